@@ -133,7 +133,8 @@ structure Applied (s s' : St) : Prop where
 
 inductive Step : St → St → Prop
   | kept {s s'} : Kept s s' → Step s s'
-  | start {s} (id : Nat) (m : Mask) : id < s.ws.length → m.e = false → m.h = false → Step s (ioStart s id m)
+  | start {s} (id : Nat) (m : Mask) : id < s.ws.length → m.e = false → m.h = false → m ≠ Mask.none →
+      Step s (ioStart s id m)
   | stop {s} (id : Nat) (m : Mask) : Step s (ioStop s id m)
   | applied {s s'} : Applied s s' → Step s s'
 
@@ -183,5 +184,364 @@ theorem SInv.kept {s s' : St} (i : SInv s) (k : Kept s s') : SInv s' := by
     rw [← (k.core id hl).2.1, ← (k.core id hl).2.2]; exact hne
   · intro fd id h; rw [hw] at h
     rw [(k.core id (i.reg fd id h).1).2.1]; exact i.regReq fd id h
+
+end UvModel.IoWatch
+
+namespace UvModel.IoWatch
+
+theorem le_nextPow2 (n : Nat) : n ≤ nextPow2 n := by
+  unfold nextPow2
+  have h : ∀ a b : Nat, a ≤ a ||| b := fun a b => Nat.left_le_or
+  have := h (n-1) ((n-1) >>> 1)
+  have := h ((n-1) ||| ((n-1) >>> 1)) (((n-1) ||| ((n-1) >>> 1)) >>> 2)
+  simp only []
+  generalize hv1 : (n - 1 ||| (n - 1) >>> 1) = v1 at *
+  generalize hv2 : (v1 ||| v1 >>> 2) = v2 at *
+  have := h v2 (v2 >>> 4)
+  generalize hv3 : (v2 ||| v2 >>> 4) = v3 at *
+  have := h v3 (v3 >>> 8)
+  generalize hv4 : (v3 ||| v3 >>> 8) = v4 at *
+  have := h v4 (v4 >>> 16)
+  omega
+
+theorem maybeResize_len (s : St) (len : Nat) : len ≤ (maybeResize s len).watchers.length := by
+  unfold maybeResize; split
+  · assumption
+  · simp; have := le_nextPow2 (len + 2); omega
+
+theorem maybeResize_at (s : St) (len fd : Nat) : watcherAt (maybeResize s len) fd = watcherAt s fd := by
+  unfold maybeResize watcherAt; split
+  · rfl
+  · simp only []; exact getD_append_replicate _ _ _
+
+theorem maybeResize_count (s : St) (len : Nat) :
+    (maybeResize s len).watchers.countP Option.isSome = s.watchers.countP Option.isSome := by
+  unfold maybeResize; split
+  · rfl
+  · simp [List.countP_append, List.countP_replicate]
+
+theorem maybeResize_other (s : St) (len : Nat) :
+    (maybeResize s len).ws = s.ws ∧ (maybeResize s len).wq = s.wq ∧ (maybeResize s len).nfds = s.nfds := by
+  unfold maybeResize; split <;> simp
+
+end UvModel.IoWatch
+namespace UvModel.IoWatch
+
+theorem ioStart_spec (s : St) (id : Nat) (m : Mask) (hid : id < s.ws.length) :
+    (∀ j, getW (ioStart s id m) j =
+      if j = id then { getW s id with pevents := (getW s id).pevents.or m, clean := false } else getW s j) ∧
+    (ioStart s id m).ws.length = s.ws.length ∧
+    ((ioStart s id m).wq = if (getW s id).events = (getW s id).pevents.or m then s.wq
+        else if s.wq.contains id then s.wq else s.wq ++ [id]) ∧
+    (∀ fd', watcherAt (ioStart s id m) fd' =
+      if (getW s id).events ≠ (getW s id).pevents.or m ∧ watcherAt s (getW s id).fd = none ∧ fd' = (getW s id).fd
+      then some id else watcherAt s fd') ∧
+    ((ioStart s id m).nfds - ((ioStart s id m).watchers.countP Option.isSome : Nat) =
+      s.nfds - (s.watchers.countP Option.isSome : Nat)) := by
+  generalize hw : getW s id = w
+  generalize hs1 : setW s id { w with pevents := w.pevents.or m, clean := false } = s1
+  have g1 : ∀ j, getW s1 j = if j = id then { w with pevents := w.pevents.or m, clean := false } else getW s j := by
+    intro j; rw [← hs1, getW_setW]; simp [hid]
+  have l1 : s1.ws.length = s.ws.length := by rw [← hs1]; simp
+  have o1 : s1.wq = s.wq ∧ s1.nfds = s.nfds ∧ s1.watchers = s.watchers := by rw [← hs1]; simp [setW]
+  generalize hs2 : maybeResize s1 (w.fd + 1) = s2
+  have hlen := maybeResize_len s1 (w.fd + 1)
+  have hat := maybeResize_at s1 (w.fd + 1)
+  have hcnt := maybeResize_count s1 (w.fd + 1)
+  have hoth := maybeResize_other s1 (w.fd + 1)
+  rw [hs2] at hlen hat hcnt hoth
+  have g2 : ∀ j, getW s2 j = getW s1 j := by intro j; simp [getW, hoth.1]
+  have hat' : ∀ fd, watcherAt s2 fd = watcherAt s fd := by intro fd; rw [hat]; simp [watcherAt, o1.2.2]
+  generalize hs3 : (if s2.wq.contains id then s2 else { s2 with wq := s2.wq ++ [id] }) = s3
+  have e : ioStart s id m =
+      if w.events = w.pevents.or m then s2
+      else
+        if watcherAt s3 w.fd = none then
+          { s3 with watchers := s3.watchers.set w.fd (some id), nfds := s3.nfds + 1 }
+        else s3 := by
+    unfold ioStart; simp only [hw, hs1, hs2, hs3]
+  rw [e]
+  by_cases hev : w.events = w.pevents.or m
+  · rw [if_pos hev]
+    refine ⟨fun j => by rw [g2, g1], by rw [hoth.1, l1], by rw [hoth.2.1, o1.1, if_pos hev], fun fd' => ?_, ?_⟩
+    · simp [hat', hev]
+    · rw [hoth.2.2, hcnt, o1.2.1, o1.2.2]
+  · rw [if_neg hev]
+    have p3 : s3.ws = s2.ws ∧ s3.watchers = s2.watchers ∧ s3.nfds = s2.nfds ∧
+        s3.wq = if s.wq.contains id then s.wq else s.wq ++ [id] := by
+      rw [← hs3]; split <;> simp_all
+    have g3 : ∀ j, getW s3 j = getW s2 j := by intro j; simp [getW, p3.1]
+    have at3 : ∀ fd, watcherAt s3 fd = watcherAt s fd := by intro fd; rw [← hat']; simp [watcherAt, p3.2.1]
+    by_cases hreg : watcherAt s w.fd = none
+    · have : watcherAt s3 w.fd = none := by rw [at3]; exact hreg
+      rw [if_pos this]
+      refine ⟨fun j => ?_, ?_, ?_, fun fd' => ?_, ?_⟩
+      · show getW s3 j = _; rw [g3, g2, g1]
+      · show s3.ws.length = _; rw [p3.1, hoth.1, l1]
+      · show s3.wq = _; rw [if_neg hev]; exact p3.2.2.2
+      · simp only [watcherAt, getD_set_eq]
+        have hl : w.fd < s3.watchers.length := by rw [p3.2.1]; omega
+        by_cases hf : fd' = w.fd
+        · subst hf
+          rw [if_pos ⟨rfl, hl⟩]; symm; apply if_pos; exact ⟨hev, hreg, rfl⟩
+        · have : ¬ (w.fd = fd' ∧ w.fd < s3.watchers.length) := by intro h; exact hf h.1.symm
+          rw [if_neg this]
+          have := at3 fd'; simp only [watcherAt] at this; rw [this]
+          simp [hf]
+      · simp only []
+        have hl : w.fd < s3.watchers.length := by rw [p3.2.1]; omega
+        have hn : s3.watchers.getD w.fd none = none := this
+        rw [countP_set_some _ _ _ hl hn, p3.2.2.1, p3.2.1, hoth.2.2, hcnt, o1.2.1, o1.2.2]
+        omega
+    · have : ¬ watcherAt s3 w.fd = none := by rw [at3]; exact hreg
+      rw [if_neg this]
+      refine ⟨fun j => by rw [g3, g2, g1], by rw [p3.1, hoth.1, l1], by rw [if_neg hev]; exact p3.2.2.2, fun fd' => ?_, ?_⟩
+      · rw [at3]; simp [hreg]
+      · rw [p3.2.2.1, p3.2.1, hoth.2.2, hcnt, o1.2.1, o1.2.2]
+
+end UvModel.IoWatch
+namespace UvModel.IoWatch
+
+theorem ioStop_spec (s : St) (id : Nat) (m : Mask) :
+    (∀ j, getW (ioStop s id m) j =
+      if j = id ∧ id < s.ws.length ∧ (getW s id).fd < s.watchers.length then
+        (if (getW s id).pevents.diff m = Mask.none then
+          { getW s id with pevents := (getW s id).pevents.diff m, events := Mask.none }
+         else { getW s id with pevents := (getW s id).pevents.diff m })
+      else getW s j) ∧
+    (ioStop s id m).ws.length = s.ws.length ∧
+    ((ioStop s id m).wq = if (getW s id).fd ≥ s.watchers.length then s.wq
+        else if (getW s id).pevents.diff m = Mask.none then s.wq.erase id
+        else if s.wq.contains id then s.wq else s.wq ++ [id]) ∧
+    (∀ fd', watcherAt (ioStop s id m) fd' =
+      if (getW s id).fd < s.watchers.length ∧ (getW s id).pevents.diff m = Mask.none ∧
+         watcherAt s (getW s id).fd = some id ∧ fd' = (getW s id).fd
+      then none else watcherAt s fd') ∧
+    ((ioStop s id m).nfds - ((ioStop s id m).watchers.countP Option.isSome : Nat) =
+      s.nfds - (s.watchers.countP Option.isSome : Nat)) := by
+  generalize hw : getW s id = w
+  unfold ioStop; simp only [hw]
+  by_cases hlen : w.fd ≥ s.watchers.length
+  · rw [if_pos hlen]
+    have : ¬ w.fd < s.watchers.length := by omega
+    refine ⟨fun j => by simp [this], rfl, by rw [if_pos hlen], fun fd' => by simp [this], rfl⟩
+  · rw [if_neg hlen]
+    have hlt : w.fd < s.watchers.length := by omega
+    by_cases hpe : w.pevents.diff m = Mask.none
+    · rw [if_pos hpe]
+      generalize hs1 : setW s id { w with pevents := w.pevents.diff m, events := Mask.none } = s1
+      have o1 : s1.wq = s.wq ∧ s1.nfds = s.nfds ∧ s1.watchers = s.watchers ∧ s1.ws.length = s.ws.length := by
+        rw [← hs1]; simp [setW]
+      have g1 : ∀ j, getW s1 j = if j = id ∧ id < s.ws.length then
+          { w with pevents := w.pevents.diff m, events := Mask.none } else getW s j := by
+        intro j; rw [← hs1, getW_setW]
+      have hat : ∀ fd, watcherAt { s1 with wq := s1.wq.erase id } fd = watcherAt s fd := by
+        intro fd; simp [watcherAt, o1.2.2.1]
+      by_cases hreg : watcherAt s w.fd = some id
+      · have : watcherAt { s1 with wq := s1.wq.erase id } w.fd = some id := by rw [hat]; exact hreg
+        rw [if_pos this]
+        refine ⟨fun j => ?_, ?_, ?_, fun fd' => ?_, ?_⟩
+        · show getW s1 j = _; rw [g1]; simp [hlt, hpe]
+        · exact o1.2.2.2
+        · show s1.wq.erase id = _; rw [if_neg hlen, if_pos hpe, o1.1]
+        · simp only [watcherAt, getD_set_eq, o1.2.2.1]
+          by_cases hf : fd' = w.fd
+          · subst hf; rw [if_pos ⟨rfl, hlt⟩]; symm; apply if_pos; exact ⟨hlt, hpe, hreg, rfl⟩
+          · have h1 : ¬ (w.fd = fd' ∧ w.fd < s.watchers.length) := by intro h; exact hf h.1.symm
+            rw [if_neg h1]; symm; apply if_neg; intro h; exact hf h.2.2.2
+        · simp only [o1.2.2.1, o1.2.1]
+          have := countP_set_none s.watchers w.fd id hreg
+          omega
+      · have : ¬ watcherAt { s1 with wq := s1.wq.erase id } w.fd = some id := by rw [hat]; exact hreg
+        rw [if_neg this]
+        refine ⟨fun j => ?_, o1.2.2.2, ?_, fun fd' => ?_, ?_⟩
+        · show getW s1 j = _; rw [g1]; simp [hlt, hpe]
+        · show s1.wq.erase id = _; rw [if_neg hlen, if_pos hpe, o1.1]
+        · rw [hat]; symm; apply if_neg; intro h; exact hreg h.2.2.1
+        · simp only [o1.2.2.1, o1.2.1]
+    · rw [if_neg hpe]
+      generalize hs1 : setW s id { w with pevents := w.pevents.diff m } = s1
+      have o1 : s1.wq = s.wq ∧ s1.nfds = s.nfds ∧ s1.watchers = s.watchers ∧ s1.ws.length = s.ws.length := by
+        rw [← hs1]; simp [setW]
+      have g1 : ∀ j, getW s1 j = if j = id ∧ id < s.ws.length then
+          { w with pevents := w.pevents.diff m } else getW s j := by
+        intro j; rw [← hs1, getW_setW]
+      have hne : ¬ (w.fd < s.watchers.length ∧ w.pevents.diff m = Mask.none ∧ watcherAt s w.fd = some id ∧ True) :=
+        fun h => hpe h.2.1
+      by_cases hc : s1.wq.contains id
+      · rw [if_pos hc]
+        refine ⟨fun j => ?_, o1.2.2.2, ?_, fun fd' => ?_, ?_⟩
+        · rw [g1]; simp [hlt, hpe]
+        · rw [if_neg hlen, if_neg hpe, o1.1, if_pos (by rw [← o1.1]; exact hc)]
+        · simp only [watcherAt, o1.2.2.1]; symm; apply if_neg; intro h; exact hpe h.2.1
+        · rw [o1.2.2.1, o1.2.1]
+      · rw [if_neg hc]
+        refine ⟨fun j => ?_, o1.2.2.2, ?_, fun fd' => ?_, ?_⟩
+        · show getW s1 j = _; rw [g1]; simp [hlt, hpe]
+        · show s1.wq ++ [id] = _; rw [if_neg hlen, if_neg hpe, o1.1, if_neg (by rw [← o1.1]; exact hc)]
+        · show s1.watchers.getD fd' none = _; rw [o1.2.2.1]; symm; apply if_neg; intro h; exact hpe h.2.1
+        · show s1.nfds - _ = _; rw [o1.2.2.1, o1.2.1]
+
+end UvModel.IoWatch
+namespace UvModel.IoWatch
+
+theorem Mask.or_ne_none (a m : Mask) (h : m ≠ Mask.none) : a.or m ≠ Mask.none := by
+  intro h'; apply h
+  cases a; cases m; simp [Mask.or, Mask.none] at h' ⊢
+  simp_all
+
+theorem SInv.start {s : St} (i : SInv s) (id : Nat) (m : Mask) (hid : id < s.ws.length)
+    (he : m.e = false) (hh : m.h = false) (hm : m ≠ Mask.none) : SInv (ioStart s id m) := by
+  obtain ⟨hg, hl, hq, ha, hn⟩ := ioStart_spec s id m hid
+  refine ⟨?_, ?_, ?_, ?_, ?_, ?_⟩
+  · have := i.nfds; omega
+  · rw [hq]; split
+    · exact i.nodup
+    · split
+      · exact i.nodup
+      · rename_i hc
+        rw [List.nodup_append]; refine ⟨i.nodup, by simp, ?_⟩
+        intro a hmem b hb; simp at hb; subst hb; intro h; subst h; simp at hc; exact hc hmem
+  · intro fd id' h; rw [ha] at h; rw [hl, hg]
+    split at h
+    · rename_i hc; simp at h; subst h; simp [hid, hc.2.2]
+    · have := i.reg fd id' h
+      refine ⟨this.1, ?_⟩
+      split
+      · rename_i e; subst e; exact this.2
+      · exact this.2
+  · intro j; rw [hg]; split
+    · have := i.mask4 id; simp [Mask.or, this, he, hh]
+    · exact i.mask4 j
+  · intro fd id' h hne; rw [ha] at h; rw [hg] at hne; rw [hq]
+    by_cases hj : id' = id
+    · subst hj; simp at hne
+      rw [if_neg (fun e => hne e)]
+      split
+      · rename_i hc; simpa using hc
+      · simp
+    · rw [if_neg hj] at hne
+      have hold : watcherAt s fd = some id' := by
+        split at h
+        · simp at h; exact absurd h.symm hj
+        · exact h
+      have := i.told fd id' hold hne
+      split
+      · exact this
+      · split
+        · exact this
+        · simp [this]
+  · intro fd id' h; rw [ha] at h; rw [hg]
+    by_cases hj : id' = id
+    · subst hj; simp; exact Mask.or_ne_none _ _ hm
+    · rw [if_neg hj]
+      have hold : watcherAt s fd = some id' := by
+        split at h
+        · simp at h; exact absurd h.symm hj
+        · exact h
+      exact i.regReq fd id' hold
+
+theorem Mask.diff_eh (a m : Mask) (h : a.e = false ∧ a.h = false) : (a.diff m).e = false ∧ (a.diff m).h = false := by
+  simp [Mask.diff, h]
+
+theorem SInv.stop {s : St} (i : SInv s) (id : Nat) (m : Mask) : SInv (ioStop s id m) := by
+  obtain ⟨hg, hl, hq, ha, hn⟩ := ioStop_spec s id m
+  refine ⟨?_, ?_, ?_, ?_, ?_, ?_⟩
+  · have := i.nfds; omega
+  · rw [hq]; split
+    · exact i.nodup
+    · split
+      · exact i.nodup.erase _
+      · split
+        · exact i.nodup
+        · rename_i hc
+          rw [List.nodup_append]; refine ⟨i.nodup, by simp, ?_⟩
+          intro a hmem b hb; simp at hb; subst hb; intro h; subst h; simp at hc; exact hc hmem
+  · intro fd id' h; rw [ha] at h; rw [hl, hg]
+    split at h
+    · simp at h
+    · have := i.reg fd id' h
+      refine ⟨this.1, ?_⟩
+      split
+      · rename_i e; rw [e.1] at this; split <;> exact this.2
+      · exact this.2
+  · intro j; rw [hg]; split
+    · split <;> exact Mask.diff_eh _ _ (i.mask4 id)
+    · exact i.mask4 j
+  · intro fd id' h hne; rw [ha] at h; rw [hg] at hne; rw [hq]
+    have hold : watcherAt s fd = some id' := by
+      split at h
+      · simp at h
+      · exact h
+    have hlt := watcherAt_lt hold
+    by_cases hj : id' = id
+    · subst hj
+      have hfd := (i.reg fd id' hold).2
+      have hlt' : (getW s id').fd < s.watchers.length := by rw [hfd]; exact hlt
+      rw [if_neg (by omega)]
+      by_cases hpe : (getW s id').pevents.diff m = Mask.none
+      · -- fully stopped: it was unregistered by this very call
+        exfalso
+        rw [if_pos ⟨hlt', hpe, by rw [hfd]; exact hold, hfd.symm⟩] at h
+        simp at h
+      · rw [if_neg hpe]; split
+        · rename_i hc; simpa using hc
+        · simp
+    · have hne' : (getW s id').events ≠ (getW s id').pevents := by
+        rw [if_neg (fun h => hj h.1)] at hne; exact hne
+      have := i.told fd id' hold hne'
+      split
+      · exact this
+      · split
+        · exact (List.mem_erase_of_ne hj).mpr this
+        · split
+          · exact this
+          · simp [this]
+  · intro fd id' h; rw [ha] at h; rw [hg]
+    have hnot : ¬ ((getW s id).fd < s.watchers.length ∧ (getW s id).pevents.diff m = Mask.none ∧
+        watcherAt s (getW s id).fd = some id ∧ fd = (getW s id).fd) := by
+      intro hc; rw [if_pos hc] at h; simp at h
+    rw [if_neg hnot] at h
+    split
+    · rename_i e
+      split
+      · rename_i hpe
+        exfalso; apply hnot
+        have hr := i.reg fd id' h
+        rw [e.1] at hr h
+        exact ⟨e.2.2, hpe, by rw [hr.2]; exact h, hr.2.symm⟩
+      · rename_i hpe; exact hpe
+    · exact i.regReq fd id' h
+
+theorem SInv.applied {s s' : St} (i : SInv s) (a : Applied s s') : SInv s' := by
+  have hw : ∀ fd, watcherAt s' fd = watcherAt s fd := by intro fd; simp [watcherAt, a.watchers]
+  refine ⟨by rw [a.nfds, a.watchers]; exact i.nfds, by rw [a.wq]; simp, ?_, ?_, ?_, ?_⟩
+  · intro fd id h; rw [hw] at h; rw [a.len, a.fd]; exact i.reg fd id h
+  · intro id; rw [a.pev]; exact i.mask4 id
+  · intro fd id h hne; rw [hw] at h; exfalso; apply hne
+    rw [a.ev, a.pev]
+    split
+    · rfl
+    · rename_i hc
+      by_cases he : (getW s id).events = (getW s id).pevents
+      · exact he
+      · exact absurd ⟨i.told fd id h he, (i.reg fd id h).1⟩ hc
+  · intro fd id h; rw [hw] at h; rw [a.pev]; exact i.regReq fd id h
+
+end UvModel.IoWatch
+
+namespace UvModel.IoWatch
+
+theorem SInv.step {s t : St} (i : SInv s) (h : Step s t) : SInv t := by
+  cases h with
+  | kept k => exact i.kept k
+  | start id m hid he hh hm => exact i.start id m hid he hh hm
+  | stop id m => exact i.stop id m
+  | applied a => exact i.applied a
+
+theorem SInv.reach {s t : St} (i : SInv s) (h : Reach s t) : SInv t := by
+  induction h with
+  | refl => exact i
+  | tail _ st ih => exact ih.step st
 
 end UvModel.IoWatch
